@@ -82,6 +82,7 @@ def check(ctx):
     ctx.rule("R10", "record-valued nonterminals (comprehension clauses, call arguments, yield arguments ...): every field a child can carry is read, or the child handed on whole, on every path on which it can be present", floor=20)
     ctx.rule("R11", "tokenizer typestate: the backslash-continuation flag of a string never outlives that string on a path without a tokenizer error", floor=1)
     ctx.rule("R12", "the value of a string or bytes literal is computed by the interpreter's own evaluators (ast.literal_eval / the host parser / the f-string adaptor) on every path - never by slicing the token text (escapes, line-ending translation, prefixes)", floor=3)
+    ctx.rule("R13", "the post-parse target check rejects a program only on the verdict of its one decision function (_not_assignable), and that function never rejects a Name, Attribute, Subscript or Starred target: valid Python is not turned into a SyntaxError by an extra check", floor=4)
     ctx.rule("R9", "the generated LALR table on disk (if present) was generated from the grammar of the working tree", floor=1)
 
     asdl = Asdl()
@@ -436,6 +437,8 @@ def check(ctx):
     else:
         ctx.ob("R9", tbl, "no generated table on disk: the parser regenerates it from the working tree", True)
     _literal_values(ctx)
+    fstring_chunk_values(ctx, "R12")
+    _target_check_grounds(ctx)
 
 
 def _target_ctx_ok(ctx, g, asdl, fn, cfg, fdefs, ctor, target, prods, kind):
@@ -564,6 +567,86 @@ def _literal_values(ctx):
         raise AnalysisError(f"{st}: only {n_defs} value definitions seen")
 
 
+def _target_check_grounds(ctx):
+    from ..engine.loader import class_methods as _cm
+
+    rel = "xonsh/parsers/context_check.py"
+    m = ctx.repo.module(rel)
+    cls = m.cls("ContextCheckingVisitor")
+    n = 0
+    for nm, f in _cm(cls).items():
+        if nm == "__init__":
+            continue
+        cfg = None
+        defs = df.all_defs(f)
+        for a in [x for x in walk_local(f) if isinstance(x, ast.Assign) and any(isinstance(t, ast.Attribute) and t.attr == "error" and unparse(t.value) == "self" for t in x.targets)]:
+            if const_value(a.value, 0) is None:
+                continue
+            n += 1
+            cfg = cfg or CFG(f)
+            ok = False
+            for nd in cfg.nodes_of(a):
+                for e, pol in facts_at(cfg, nd):
+                    # `<v> is None` false, <v> bound from the decision function
+                    if isinstance(e, ast.Compare) and len(e.ops) == 1 and isinstance(e.ops[0], (ast.Is, ast.IsNot)) and const_value(e.comparators[0], 0) is None and isinstance(e.left, ast.Name):
+                        if pol == isinstance(e.ops[0], ast.IsNot):
+                            ds = defs.get(e.left.id, [])
+                            if ds and all(d.value is not None and isinstance(d.value, ast.Call) and call_name(d.value) == "_not_assignable" for d in ds):
+                                ok = True
+            ctx.ob("R13", f"{rel}:ContextCheckingVisitor.{nm}", f"`{short(a, 60)}` is decided by a non-None verdict of _not_assignable()", ok, key=f"{nm}|rejection-on-other-grounds", where=loc(a), detail=None if ok else "a second ground for rejecting a target: the first such ground that is wrong about nested / starred / subscripted targets turns valid Python into a SyntaxError")
+    if n < 3:
+        raise AnalysisError(f"{rel}: only {n} rejection sites found in the target check")
+    na = m.func("_not_assignable")
+    bad = []
+    for r in [r for r in walk_local(na) if isinstance(r, ast.Return) and r.value is not None and isinstance(const_value(r.value, None), str)]:
+        for a_ in ancestors(r):
+            if isinstance(a_, ast.If) and any(r is b or lexically_inside(r, b) for b in a_.body):
+                for c in ast.walk(a_.test):
+                    if isinstance(c, ast.Call) and call_name(c) == "isinstance" and len(c.args) == 2:
+                        kinds = {x.attr for x in ast.walk(c.args[1]) if isinstance(x, ast.Attribute)}
+                        if kinds & {"Attribute", "Subscript", "Starred"}:
+                            bad.append(r)
+    ctx.ob("R13", f"{rel}:_not_assignable", "no rejecting branch tests for Attribute, Subscript or Starred (always assignable)", not bad, key="not_assignable|rejects-assignable-kind", where=loc(bad[0]) if bad else loc(na))
+
+
+def fstring_chunk_values(ctx, rule):
+    """3.12+ grammar: the literal chunks of an f-string arrive as Constant nodes holding the *source* text of the chunk; the
+    action of `fstring_expr` replaces that text by its value.  Every such replacement must come out of the interpreter's
+    own parser (the chunk re-quoted and parsed) - or be the chunk itself, unchanged."""
+    rel = "xonsh/parsers/fstring_rules_llm.py"
+    fm = ctx.repo.module(rel)
+    raw = fm.func("FStringRules.p_fstring_expr", raw=True) if "raw" in fm.func.__code__.co_varnames else fm.func("FStringRules.p_fstring_expr")
+    fn = flat(ctx, raw, 2, skip=("xonsh_call", "pyparse", "parse", "literal_eval"))
+    st = f"{rel}:FStringRules.p_fstring_expr"
+    defs = df.all_defs(fn)
+    DELEG = ("pyparse", "parse", "literal_eval", "FStringAdaptor")
+    stores = [n for n in walk_local(fn) if isinstance(n, ast.Assign) and any(isinstance(t, ast.Attribute) and t.attr == "value" for t in n.targets)]
+    if not stores:
+        raise AnchorMissing(f"{st}: the replacement of a chunk's text by its value (`node.value = ...`)")
+    for a in stores:
+        tgt = next(t for t in a.targets if isinstance(t, ast.Attribute) and t.attr == "value")
+        chunk = unparse(tgt)
+
+        def judged(e, seen=frozenset()):
+            """None if fine, else the offending expression"""
+            if any(isinstance(c, ast.Call) and (call_name(c) or "").split(".")[-1] in DELEG for c in ast.walk(e)):
+                return None
+            if unparse(e) == chunk:
+                return None  # the chunk as it is
+            if isinstance(e, ast.Name) and e.id not in seen:
+                ds = [d for d in defs.get(e.id, []) if d.value is not None]
+                if ds:
+                    for d in ds:
+                        r = judged(d.value, seen | {e.id})
+                        if r is not None:
+                            return r
+                    return None
+            return e
+
+        bad = judged(a.value)
+        ctx.ob(rule, st, f"`{short(a, 60)}`: the value of a literal chunk comes out of the interpreter's own parser (or is the chunk unchanged)", bad is None, key="fstring-chunk|value-not-delegated", where=loc(a), detail=f"`{short(bad, 60)}` computes the value by other means (a codec, a hand-written unescape): non-ASCII text, \\N{{...}}, line continuations differ" if bad is not None else None)
+
+
 META = {
     "technique": "static analysis over the effective PLY grammar (dumped from the working tree; LALR table generated to find live productions) and MRO-resolved action ASTs, with the running interpreter's ast/token/keyword modules and ast._Unparser tables as oracles",
     "text": "Not tree equality for all programs (undecidable here) but eleven necessary conditions, each checked for "
@@ -581,5 +664,5 @@ META = {
     "`**kw: T` after `*args` is not annotatable (vfpdef in a typedargslist production), `for i, in xs`.",
     "note": "Decides the listed structural clauses, not the behaviour. The grammar is read by importing "
     "xonsh.parsers from the analysed tree in a helper subprocess (static initialisers and grammar templating only).",
-    "more": "Also decided: every definition of a string/bytes literal's value in p_string_literal (helpers expanded) is delegated to ast.literal_eval, the host parser or the f-string adaptor - never computed from the token text.",
+    "more": "Also decided: every definition of a string/bytes literal's value in p_string_literal (helpers expanded) is delegated to ast.literal_eval, the host parser or the f-string adaptor - never computed from the token text. The post-parse target check rejects only on the verdict of its one decision function, which never rejects Attribute/Subscript/Starred targets; the value of every literal chunk of a 3.12 f-string comes from the host parser.",
 }
